@@ -18,7 +18,7 @@ from comb_spec_searcher.rule_db.forest import RuleDBForest, TableMethod
 from comb_spec_searcher.typing import ForestRuleKey, RuleBucket
 
 ID = "C03"
-QUICK_RUNS = 16000
+QUICK_RUNS = 40000
 CHUNK = 200
 THOROUGH_BUDGET_S = 600
 LEVEL = "exploration"
